@@ -22,7 +22,10 @@ pub fn prop() -> Prop {
          referenced by a field, argument, input field or directive-definition argument. When validation pruned built-in \
          scalars, the schema reached through the API (into_inner, add references to some or all pruned scalars as a new \
          field / argument / input field / directive argument, validate again) is inspected with the same predicates \
-         (class accepted/after-api-edit). Non-trivial: accepted schema \
+         (class accepted/after-api-edit). Stage after-first-call: the same check in fresh worker processes of 250 cases each whose \
+         first use of the library is one of seven legitimate but unusual calls (validating a schema whose built-in scalar \
+         definitions were removed by hand, an invalid schema, an introspection query, standalone validation, ...): what a \
+         process did first must not change any later result (lazily initialised process-wide tables). Non-trivial: accepted schema \
          with at least one interface implementation or input object; distinct by text. Classes: accepted/rejected x mutated, \
          pruned-scalar count.",
     )
@@ -32,6 +35,16 @@ pub fn prop() -> Prop {
         |t| if t == Tier::Quick { 300_000 } else { 3_000_000 },
         |t| if t == Tier::Quick { 700 } else { 1000 },
     )
+    // the same check in fresh worker processes of 250 cases whose FIRST use of the library is one of a
+    // menu of legitimate but unusual calls (see `first_call`): results must not depend on what a
+    // process happened to do first (lazily initialised process-wide tables)
+    .random(
+        "after-first-call",
+        check_after_first_call,
+        |t| if t == Tier::Quick { 12_000 } else { 120_000 },
+        |t| if t == Tier::Quick { 700 } else { 1000 },
+    )
+    .fresh_blocks(250)
     .text(check_text)
     .assumptions(&[
         "`user-defined name` = any name except the 8 introspection type names; `referenced` counts the introspection types and built-in directives too (they reference String and Boolean)",
@@ -427,6 +440,58 @@ fn run(text: &str, mutated: bool, ctx: &mut Ctx, edits: Option<&mut Choices>) ->
         }
     }
     ctx.pick_failure(fails)
+}
+
+/// What a fresh process does before its first case of the `after-first-call` stage. Every entry is a
+/// legitimate use of the public API.
+fn first_call(kind: u64) -> &'static str {
+    use apollo_compiler::{ExecutableDocument, Schema};
+    match kind % 7 {
+        0 => "nothing",
+        1 => {
+            // validate a schema whose built-in scalar definitions were removed by hand (validation
+            // documents that it inserts the missing ones that are referenced)
+            let mut s = Schema::parse("type Query { a: Int }", "w.graphql").expect("builds");
+            s.types.retain(|n, _| !SCALARS.contains(&n.as_str()));
+            let _ = s.validate();
+            "validate(schema without built-in scalar definitions)"
+        }
+        2 => {
+            let mut s = Schema::parse("type Query { a: String b: ID }", "w.graphql").expect("builds");
+            s.types.retain(|n, _| n != "Float" && n != "Boolean");
+            let _ = s.validate();
+            "validate(schema without Float and Boolean definitions)"
+        }
+        3 => {
+            let _ = Schema::parse_and_validate("type Query { a: Nope } extend type X { b: Int }", "w.graphql");
+            "parse_and_validate(invalid schema)"
+        }
+        4 => {
+            let s = Schema::parse_and_validate("type Query { a: Int }", "w.graphql").expect("valid");
+            let _ = ExecutableDocument::parse_and_validate(&s, "{ __schema { types { name } } a }", "q.graphql");
+            "parse_and_validate(introspection query)"
+        }
+        5 => {
+            let _ = apollo_compiler::ast::Document::parse("{ a @skip(if: true) }", "d.graphql").map(|d| d.validate_standalone_executable());
+            "validate_standalone_executable"
+        }
+        _ => {
+            let s = Schema::parse_and_validate("scalar S type Query { a: S }", "w.graphql").expect("valid");
+            let _ = s.into_inner().validate();
+            "validate, into_inner, validate(schema using no built-in scalar)"
+        }
+    }
+}
+
+pub fn check_after_first_call(bytes: &[u8], ctx: &mut Ctx) -> Outcome {
+    static FIRST: std::sync::OnceLock<&'static str> = std::sync::OnceLock::new();
+    let block = ctx.index / 250;
+    let what = *FIRST.get_or_init(|| first_call(block));
+    ctx.class(format!("first-call:{}", what));
+    match check(bytes, ctx) {
+        Outcome::Fail { sig, detail } => Outcome::Fail { sig: format!("{}|after-first-call", sig), detail: format!("{}\n(the first call of this process was: {})", detail, what) },
+        o => o,
+    }
 }
 
 pub fn check_text(text: &str, ctx: &mut Ctx) -> Outcome {
